@@ -50,6 +50,14 @@ CHECKS = {
                      "sequence cycles, timestamp jumps and 2^32 wrap, wall-clock jumps) into a real RTCRtpReceiver (audio and video) whose own "
                      "RTCP task reports at its seeded intervals: fraction lost, cumulative lost (24-bit clamp), extended highest sequence and "
                      "jitter of every report block on the wire equal the RFC 3550 A.1/A.3/A.8 reference; the report task never dies; getStats agrees."),
+    "C17": dict(engine="diff_sim", design="10/C17", technique="deterministic differential simulation: one workload and one recorded decision trace executed with small origins and with origins at the wrap point; origin-normalised event logs must be identical",
+                text="Seeded exploration of run PAIRS: SCTP associations (C01/C02/C06/C13 workloads and fault schedules; TSN, re-config and "
+                     "stream sequence numbers), jitter-buffer histories and receiver-statistics histories (RTP sequence numbers and timestamps) "
+                     "are executed once with small origins and once with origins within a few hundred of the wrap, replaying the same recorded "
+                     "network/scheduler decisions; every event (datagram summaries with origin-relative sequence fields, deliveries, state "
+                     "changes, released frames, report blocks) must coincide and the wrapped run must satisfy its own property's oracle. The "
+                     "exhaustive serial-arithmetic sub-claim is a pure function and is not decided here.",
+                note="NACK generation and the sender's retransmission history are covered by the C11 runs that start at the wrap, not by a pair"),
 }
 
 NOT_APPLICABLE = [
@@ -61,6 +69,8 @@ NOT_APPLICABLE = [
 LEVELS = {"C05": "fault_enumeration", "C19": "fault_enumeration"}
 
 ENGINES = [
+    {"name": "diff_sim", "path": "simrtc/engines/diff_sim.py", "serves_properties": ["C17"],
+     "kind_free_text": "pairs of sctp_sim / history_sim runs that differ only in sequence-number origins, compared event by event"},
     {"name": "history_sim", "path": "simrtc/engines/history_sim.py", "serves_properties": ["C10", "C12", "C15", "C18", "C17"],
      "kind_free_text": "real JitterBuffer / RemoteBitrateEstimator / RTCRtpReceiver statistics and RTCP task / RtpRouter fed by a generated sender through SimNet under SimLoop (virtual time); reference models compared event by event"},
     {"name": "sctp_sim", "path": "simrtc/engines/sctp_sim.py", "serves_properties": ["C01", "C02", "C06", "C08", "C13", "C17"],
